@@ -58,7 +58,15 @@ non-trivial = has >= 1 data block; distinct = distinct (block subset, pointer or
                 }
             }
         } else {
-            match mon::catch(|| decode_digital_radar_data(&mut Cursor::new(&body[..]))) {
+            // a quarter of the direct decodes go through a reader that returns short reads
+            let r = if i % 4 == 1 {
+                obs.count("decoded_through_short_read_reader", 1);
+                let mut rd = mon::DribbleReader::new(Cursor::new(&body[..]), i);
+                mon::catch(|| decode_digital_radar_data(&mut rd))
+            } else {
+                mon::catch(|| decode_digital_radar_data(&mut Cursor::new(&body[..])))
+            };
+            match r {
                 Err(p) => Err(format!("{}|{}", p.signature(), p.message)),
                 Ok(Err(e)) => Err(format!("decode error|{e:?}")),
                 Ok(Ok(m)) => Ok(m),
